@@ -235,6 +235,26 @@ def r5(chk, ctx):
             chk.ob("C18.R5", "%s: %s.%s guarded by isinstance(%s, %s)" % (q, v, n.func.attr, v, need), ok, "",
                    key="%s | `%s.%s(...)` on a JSON value whose kind is not tested" % (q, v, n.func.attr), where=sl.line(n),
                    message="the validator must report problems rather than raise, for any JSON value")
+        # membership tests and subscripts on a document value need the same guard
+        docvars = set(params)
+        for n in body_nodes(f):
+            if isinstance(n, ast.For) and norm(n.iter).endswith((".items()", ".values()")):
+                tg = n.target.elts[-1] if isinstance(n.target, ast.Tuple) else n.target
+                if isinstance(tg, ast.Name):
+                    docvars.add(tg.id)
+        for n in body_nodes(f):
+            v = None
+            if isinstance(n, ast.Compare) and len(n.ops) == 1 and isinstance(n.ops[0], (ast.In, ast.NotIn)) and isinstance(n.comparators[0], ast.Name) and n.comparators[0].id in docvars:
+                v, what = n.comparators[0].id, "`%s`" % norm(n)
+            elif isinstance(n, ast.Subscript) and isinstance(n.ctx, ast.Load) and isinstance(n.value, ast.Name) and n.value.id in docvars and not isinstance(n.slice, ast.Slice):
+                v, what = n.value.id, "`%s`" % norm(n)
+            if v is None:
+                continue
+            total += 1
+            ok = _guarded(sl, f, n, v, "dict") or _guarded(sl, f, n, v, "list") or _guarded(sl, f, n, v, "str")
+            chk.ob("C18.R5", "%s: %s guarded by a kind test of %s" % (q, what, v), ok, "",
+                   key="%s | %s on a JSON value whose kind is not tested" % (q, what), where=sl.line(n),
+                   message="`x in 5` / `5['k']` raise TypeError: the validator must report problems rather than raise, for any JSON value")
     chk.floor("C18.R5", total, 10, "attribute calls on JSON values in StateNode")
 
 
@@ -287,10 +307,12 @@ def _guarded(m, f, call, v, need):
             return True
     # (d) v bound from a guarded source: `states = node["States"]` under is_machine_top etc.
     for d in name_defs(f, v):
+        if not isinstance(d, ast.Assign):
+            continue            # loop targets are not covered by a guard on the iterable
         for i, arm in enclosing_ifs(m, d, f.node):
             if arm == "body" and isinstance(i.test, ast.Name):
                 td = [x for x in name_defs(f, i.test.id) if isinstance(x, ast.Assign)]
-                if td and "isinstance(" in norm(td[0].value) and need in norm(td[0].value):
+                if td and ("isinstance(%s, %s)" % (norm(d.value), need)) in norm(td[0].value):
                     return True
     return False
 
